@@ -55,7 +55,25 @@ CASES = [
     ("pow2", lambda xp, a, b: a**2),
     ("cmp", lambda xp, a, b: (a <= b)),
     ("all", lambda xp, a, b: xp.all(a > -100)),
+    ("python_int_refused", lambda xp, a, b: _refusal(xp, a)),
 ]
+
+
+def _refusal(xp, a):
+    """numpy >= 2 refuses a Python integer that the integer dtype cannot hold (plain and masked assignment): 1.0 where refused."""
+    out = []
+    for dt, v in ((np.uint8, 255), (np.uint8, 256), (np.uint16, 65536), (np.uint32, 2**32 - 1), (np.int8, -129)):
+        z = xp.zeros(a.shape, dtype=dt)
+        for masked in (False, True):
+            try:
+                if masked:
+                    z[a > 100] = v
+                else:
+                    z[0, 0] = v
+                out.append(0.0)
+            except OverflowError:
+                out.append(1.0)
+    return xp.asarray(out)
 
 
 def _masked(xp, a, b):
